@@ -803,3 +803,10 @@ def run(ctx):
     rule_normaliser(ctx, N)
     rule_memberwise(ctx, roots, helpers, N)
     rule_relation_table(ctx, roots)
+    # R8.6: no behaviour changes at a number fixed in the source (sizes, depths, counts, magnitudes are unbounded in the property's domain)
+    from . import scope as _scope
+    _scope.rule_no_size_thresholds(ctx, 'R8.6', ('_utils', '_validators'), 'equality, its normaliser and uniqueness')
+    _scope.rule_no_value_identity(ctx, 'R8.7', ('_utils', '_validators', '_legacy_validators'), 'equality, its normaliser and uniqueness')
+    # R8.8: the equality keywords decide on their own value and the instance alone: no sibling keyword (a `type` next to `enum`) narrows the comparison (C08-r6m3)
+    from .c10 import rule_read_set
+    rule_read_set(ctx, "R8.8")
